@@ -66,6 +66,18 @@ TFileData ==
        /\ Ev.r.kind = "Hash"
        /\ Ev.r.r = GenFinalize(fv, GenUpdate(fv, GenNew(fv), Ev.data), DefaultOptions)
     /\ UNCHANGED <<s, v>>
+\* hash_file on a sparse regular file: `head` then zeros up to `size` (a wide number, above 2^31)
+TFileWide ==
+    /\ IsEvent("file_wide") /\ s.pc = "Idle"
+    /\ LET fv   == VariantByName(Ev.v)
+           \* the closed form assumes the four bytes before the run belong to it: 8 zeros go byte by byte
+           g1   == GenUpdate(fv, GenNew(fv), Ev.head \o <<0, 0, 0, 0, 0, 0, 0, 0>>)
+           runW == WSub(<<Ev.size[1], Ev.size[2]>>, WOfNat(Len(Ev.head) + 8))
+           g2   == GenUpdatePeriodicWide(fv, g1, <<0>>, WZero, runW, <<>>)
+       IN /\ fv.ckLen = 1 /\ Len(Ev.head) >= 8
+          /\ Ev.r.kind = "Hash"
+          /\ Ev.r.r = GenFinalize(fv, g2, DefaultOptions)
+    /\ UNCHANGED <<s, v>>
 TFileErr ==
     /\ IsEvent("file_err") /\ s.pc = "Idle"
     /\ Ev.r.kind = "IOError"
@@ -85,7 +97,7 @@ TExample ==
        IN Ev.line = PadTo(word, 72) \o <<32>> \o Ev.name
     /\ UNCHANGED <<s, v>>
 
-TraceNext == TBegin \/ TRead \/ TEnd \/ TFile \/ TFileData \/ TFileErr \/ TExample
+TraceNext == TBegin \/ TRead \/ TEnd \/ TFile \/ TFileData \/ TFileWide \/ TFileErr \/ TExample
 TraceSpec == l = 1 /\ s = Idle /\ v = VNormal /\ [][TraceNext]_vars
 
 TraceAccepted ==
